@@ -809,7 +809,10 @@ func (sc *StorageSmartContract) adjustChallengePool(
 			err = alloc.moveFromChallengePool(cp, ch.Value)
 			removedFromCP += ch.Value
 
-			alloc.BlobberAllocs[i].ChallengePoolIntegralValue -= ch.Value
+			if err == nil {
+				alloc.BlobberAllocs[i].ChallengePoolIntegralValue, err = currency.MinusCoin(
+					alloc.BlobberAllocs[i].ChallengePoolIntegralValue, ch.Value)
+			}
 			alloc.MovedBack += ch.Value
 			totalChanges -= int(changeValueInInt64)
 		default:
